@@ -1,41 +1,45 @@
-"""Per-property configuration of bin/check: which harness runs make up the quick and the
-thorough tier, the status of the theorems, what is trusted."""
+"""Per-property configuration of bin/check.  Each property has a module bin/propcfg/Cxx.py
+defining CONFIG = { 'runs': f(tier, seed, replay) -> [run...], 'status': str,
+'assumptions': [...], optional 'rule', 'trusted', 'technique', 'nontrivial' }.
+A run is {'args': [harness args...], optional 'profile': 'debug'|'release', 'env': {...},
+'timeout': s} or {'replay_cases': path}."""
+import importlib
+import os
+import sys
+
+HERE = os.path.dirname(os.path.abspath(__file__))
+sys.path.insert(0, HERE)
 
 TRUSTED_BASE = [
-    "Coq 8.16.1 kernel (coqc; vm_compute used only in Examples); no native_compute",
-    "no axioms: every property theorem prints 'Closed under the global context'",
+    "Coq 8.16.1 kernel (coqc; vm_compute used only in Examples and _refuted witnesses); no native_compute",
+    "axioms: none expected (every property theorem must print 'Closed under the global context'; anything else fails the check)",
     "hand-written Gallina model of ddnnife; tied to /repo by the differential correspondence run of this check",
-    "extraction to OCaml with ExtrOcamlBasic only (bool, option, list, prod, unit, sumbool mapped to OCaml; no Extract Constant); OCaml 4.13.1; ocaml/driver.ml, conv.ml, blocks.ml, chk_*.ml",
+    "extraction to OCaml with ExtrOcamlBasic only (bool, option, list, prod, unit, sumbool mapped to OCaml; no Extract Constant / Extract Inductive of our own); OCaml 4.13.1; ocaml/driver.ml, conv.ml, blocks.ml, chk_*.ml",
     "Rust harness /verif/harness (generators, reference CNF compiler, canonicalisation) built against /repo with cargo feature 'verif'",
 ]
+
+# hook commits in /repo (guarded by cargo feature 'verif')
+HOOK_COMMITS = ["0b8985f"]
+# reasons for properties without a check
+NOT_CLAIMED = {}
 
 
 def replay_run(replay):
     return [{"replay_cases": replay}]
 
 
-def simple(kind, quick_count, thorough_count, extra=None):
+def simple(kind, quick_count, thorough_count, extra=None, profile="debug"):
     def runs(tier, seed, replay):
         if replay:
             return replay_run(replay)
         n = thorough_count if tier == "thorough" else quick_count
         args = [kind, "--seed", str(seed), "--tier", tier, "--count", str(n)]
-        return [{"args": args + (extra or [])}]
+        return [{"args": args + (extra or []), "profile": profile}]
     return runs
 
 
-PROPS = {
-    "C01": {
-        "runs": simple("c01", 400, 4000),
-        "status": "full: C01_count_flat, C01_same_function_same_count, C01_models_enum (all WF circuits, unbounded Z); "
-                  "partial: that the loaders establish WF and preserve the file's function is discharged per input "
-                  "(verified checker check_wf + truth table against the source formula), not yet a theorem over all files",
-        "assumptions": [
-            "the d4/c2d loaders are modelled only through their output: every loaded vector is checked by the verified check_wf and compared with the source truth table",
-            "input space: exhaustive functions over 1..3 (quick) / 1..4 (thorough) features plus random CNFs, compiled by the harness' reference compiler",
-        ],
-    },
-}
-
-HOOK_COMMITS = ["0b8985f"]
-NOT_CLAIMED = {}
+PROPS = {}
+for f in sorted(os.listdir(os.path.join(HERE, "propcfg"))):
+    if f.endswith(".py") and f[0] == "C":
+        mod = importlib.import_module("propcfg." + f[:-3])
+        PROPS[f[:-3]] = mod.CONFIG
